@@ -538,6 +538,34 @@ def run(ck):
     garb += [bytes([0x42, 0x01]) + bytes(rng.randrange(256) for _ in range(rng.randint(0, 80))) for _ in range(2000 if T else 400)]
     ck.stream("h265_malformed", garb, "C15_h265_bytes", "h265b", "C15_total_ok", nontrivial=lambda c: len(c) > 4,
               sig=sig_of("h265-malformed"), sample=2)
+    # D30 (known finding): the last short-term RPS predicted from the previous one — valid per 7.3.7
+    irecs = []
+    for _ in range(400 if T else 60):
+        r = gen_h265(rng)
+        nr = r[K(157)]
+        if nr < 2:
+            nr = 2
+            r[K(157)] = 2
+            for i in range(2):
+                r.setdefault(K(163, i), 0)
+                r.setdefault(K(164, i), 0)
+        last = nr - 1
+        ndp = r.get(K(163, last - 1), 0) + r.get(K(164, last - 1), 0)
+        r[K(158, last)] = 1
+        r[K(159, last)] = flag(rng)
+        r[K(160, last)] = ue_sample(rng, 32767)
+        for j in range(ndp + 1):
+            u = flag(rng, 0.7)
+            r[K(161, last * 32 + j)] = u
+            if not u:
+                r[K(162, last * 32 + j)] = flag(rng)
+        irecs.append(r)
+    inals = emit_all(ck, "C15_h265i_emit", irecs)
+    icases = [[rec_val(r), b] for r, b in zip(irecs, inals) if b is not None]
+    if len(icases) < len(irecs) * 0.9:
+        ck.fail("h265_inter_rps", "generator", "", note="inter-RPS witnesses not well-ranged")
+    ck.stream("h265_inter_rps", icases, "C15_h265_run", "h265", "C15_h265i_ok",
+              sig=lambda c, e, o: "h265-inter-rps" if o == "(0)" and e == o else "h265-inter-rps:other")
     n = 5000 if T else 700
     recs = [gen_vps(rng) for _ in range(n)]
     nals = emit_all(ck, "C15_vps_emit", recs)
